@@ -659,6 +659,87 @@ theorem aggFold_of_oracle (hc : OracleClosed opq) (hrest : AggFoldSoundOracle op
 theorem simplify_sound_oracle (hc : OracleClosed opq) (hrest : AggFoldSoundOracle opq) : SimplifySound opq :=
   simplify_sound opq hc (aggFold_of_oracle opq hc hrest)
 
+/-! ### `gcd`: what the oracle has to satisfy, and nothing about the rewriter left -/
+
+/-- the oracle's `gcd` of two integers, where it has a value, is the greatest common divisor -/
+def GcdOracleOk : Prop := ∀ (m n : Int) (w : Value), opq "gcd" [Value.num (m : Rat), Value.num (n : Rat)] = .ok w → w = Value.num ((Int.gcd m n : Nat) : Int)
+
+/-- **the folding of `gcd` is sound** for every oracle whose `gcd` is the greatest common divisor -/
+theorem gcd_fold_sound (hg : GcdOracleOk opq) (f : Nat) (t : DataType) (args : ExprList) (r : Expr)
+    (ihS : ∀ e r', simp f e = .ok r' → Pres opq r' e)
+    (h : simpCall (f + 1) (.call t "gcd" args) "gcd" args = .ok r) : Pres opq r (.call t "gcd" args) := by
+  intro ρ v hv
+  unfold simpCall at h
+  extract_lets arg0 at h
+  simp only [show ("gcd" == "abs") = false by decide, show ("gcd" == "bool") = false by decide, show ("gcd" == "int") = false by decide,
+    show ("gcd" == "float") = false by decide, show ("gcd" == "str") = false by decide, show ("gcd" == "len") = false by decide,
+    show ("gcd" == "sum") = false by decide, show ("gcd" == "prod") = false by decide, show ("gcd" == "max") = false by decide,
+    show ("gcd" == "min") = false by decide, show ("gcd" == "gcd") = true by decide, Bool.or_self, Bool.false_eq_true, ↓reduceIte] at h
+  have hap : ∀ xs, applyFun opq "gcd" xs = opq "gcd" xs := by
+    intro xs
+    unfold applyFun
+    split <;> first | rfl | (rename_i heq; exact absurd heq (by decide))
+  cases args with
+  | nil => simp only at h; cases h; exact hv
+  | cons a0 rest =>
+    cases rest with
+    | nil => simp only at h; cases h; exact hv
+    | cons a1 rest2 =>
+      cases rest2 with
+      | cons a2 rest3 => simp only at h; cases h; exact hv
+      | nil =>
+        simp only at h
+        obtain ⟨x, hx, h⟩ := bind_ok h
+        obtain ⟨y, hy, h⟩ := bind_ok h
+        cases hmx : numLit? x with
+        | none => rw [hmx] at h; simp only at h; cases h; exact hv
+        | some lx =>
+          cases hny : numLit? y with
+          | none => rw [hmx, hny] at h; simp only at h; cases h; exact hv
+          | some ly =>
+            rw [hmx, hny] at h
+            obtain ⟨xs, hxs, happ⟩ := call_unfold opq hv
+            obtain ⟨v0, xs', h0, hxs', rfl⟩ := evalList_cons_inv opq hxs
+            obtain ⟨v1, xs'', h1, hxs'', rfl⟩ := evalList_cons_inv opq hxs'
+            simp only [evalList, Except.ok.injEq] at hxs''; subst hxs''
+            obtain ⟨tx, kx, rfl⟩ := numLit_some hmx
+            obtain ⟨ty, ky, rfl⟩ := numLit_some hny
+            have e0 := ihS _ _ hx ρ _ h0
+            have e1 := ihS _ _ hy ρ _ h1
+            rw [eval_lit] at e0 e1
+            rw [hap] at happ
+            cases lx with
+            | int m =>
+              cases ly with
+              | int n =>
+                simp only at h
+                simp only [litValue, Except.ok.injEq] at e0 e1
+                subst e0; subst e1
+                have := hg m n v happ
+                subst this
+                rw [litNumber_eval opq h ρ]
+                rfl
+              | _ => simp [unmodelled] at h
+            | _ => cases ly <;> simp [unmodelled] at h
+
+/-- the one statement about the rewriter that stays assumed: the folding of `str` over a literal (Python's `str` tells `2` from `2.0`,
+    which the value domain of the reference semantics does not) -/
+def StrFoldSound : Prop := ∀ (f : Nat) (t : DataType) (args : ExprList) (r : Expr),
+  (∀ e r', simp f e = .ok r' → Pres opq r' e) →
+  simpCall (f + 1) (.call t "str" args) "str" args = .ok r → Pres opq r (.call t "str" args)
+
+theorem aggFoldOracle_of_gcd (hg : GcdOracleOk opq) (hs : StrFoldSound opq) : AggFoldSoundOracle opq := by
+  intro f t fn args r hm ihS h
+  simp only [List.mem_cons, List.not_mem_nil, or_false] at hm
+  rcases hm with rfl | rfl
+  · exact hs f t args r ihS h
+  · exact gcd_fold_sound opq hg f t args r ihS h
+
+/-- **`simplify` preserves meaning** for every oracle that does not extend the interpreted functions and whose `gcd` is the greatest
+    common divisor, assuming only the folding of `str` -/
+theorem simplify_sound_gcd (hc : OracleClosed opq) (hg : GcdOracleOk opq) (hs : StrFoldSound opq) : SimplifySound opq :=
+  simplify_sound_oracle opq hc (aggFoldOracle_of_gcd opq hg hs)
+
 /-- an oracle that gives `str` and `gcd` no value meets the assumption -/
 theorem aggFoldOracle_of_silent (hs : ∀ xs v, opq "str" xs ≠ .ok v) (hg : ∀ xs v, opq "gcd" xs ≠ .ok v) : AggFoldSoundOracle opq := by
   intro f t fn args r hm _ _ ρ v hv
